@@ -214,6 +214,10 @@ func sweepReplay(tmpl, testName, rel, cfg, dir string) (bool, string) {
 }
 
 func sweepReplayFlags(tmpl, testName, rel, cfg, dir string, extra []string) (bool, string) {
+	return sweepReplayExtra(tmpl, testName, rel, cfg, dir, extra, nil)
+}
+
+func sweepReplayExtra(tmpl, testName, rel, cfg, dir string, extra []string, extraFiles map[string]string) (bool, string) {
 	ck := tmpl + "|" + cfg
 	if r, ok := sweepCache[ck]; ok {
 		os.WriteFile(filepath.Join(dir, "output.txt"), []byte(r.out), 0o644)
@@ -235,6 +239,9 @@ func sweepReplayFlags(tmpl, testName, rel, cfg, dir string, extra []string) (boo
 	repl := map[string]string{
 		filepath.Join(repoDir, rel, "zz_verif_oracle_test.go"): orPath,
 		filepath.Join(repoDir, rel, "zz_verif_sweep_test.go"):  tPath,
+	}
+	for k, v := range extraFiles {
+		repl[k] = v
 	}
 	ovb, _ := json.MarshalIndent(map[string]interface{}{"Replace": repl}, "", " ")
 	ovPath := filepath.Join(dir, "overlay.json")
@@ -298,7 +305,83 @@ func raceSweepReplayer(prop string, ob *Obligation, cfg string, dir string) (boo
 	return ok, desc, firstLines(out, 3)
 }
 
+func msmSweepReplayer(prop string, ob *Obligation, cfg string, dir string) (bool, string, string) {
+	ok, out := sweepReplay("msm_sweep_test.go.tmpl", "TestVerifMsmSweep", "", cfg, dir)
+	desc := fmt.Sprintf("%s: solver found a counterexample to \"%s\" (%s); confirmed on the real routine: %s", ob.Harness, ob.Msg, ob.Pos, firstLines(out, 5))
+	return ok, desc, firstLines(out, 3)
+}
+
+// fallbackSweepReplayer runs all-valid batches under a coverage profile and reports whether the fallback block
+// of VerifyBatch was executed.
+func fallbackSweepReplayer(prop string, ob *Obligation, cfg string, dir string) (bool, string, string) {
+	cover := filepath.Join(dir, "cover.out")
+	os.Remove(cover)
+	// the batch sweep file provides the deterministic entropy stream type
+	bs, _ := os.ReadFile("/verif/oracle/batch_sweep_test.go.tmpl")
+	extraPath := filepath.Join(dir, "zz_verif_batchtypes_test.go")
+	src := string(bs)
+	if i := strings.Index(src, "type swEntry struct"); i > 0 {
+		src = src[:i]
+	}
+	src = strings.Replace(src, "\t\"bytes\"\n", "", 1)
+	src = strings.Replace(src, "\t\"crypto\"\n", "", 1)
+	src = strings.Replace(src, "\t\"fmt\"\n", "", 1)
+	src = strings.Replace(src, "\t\"math/big\"\n", "", 1)
+	src = strings.Replace(src, "\t\"testing\"\n", "", 1)
+	os.WriteFile(extraPath, []byte(src), 0o644)
+	ok, out := sweepReplayExtra("fallback_sweep_test.go.tmpl", "TestVerifFallbackSweep", "", cfg, dir, []string{"-coverprofile=" + cover}, map[string]string{filepath.Join(repoDir, "zz_verif_batchtypes_test.go"): extraPath})
+	detail := firstLines(out, 3)
+	if !ok {
+		// inspect the coverage profile for the fallback block
+		srcb, err := os.ReadFile(filepath.Join(repoDir, "batch_verify.go"))
+		prof, err2 := os.ReadFile(cover)
+		if err == nil && err2 == nil {
+			lines := strings.Split(string(srcb), "\n")
+			start, end := -1, -1
+			for i, l := range lines {
+				if start < 0 && strings.Contains(l, "if !batchOk {") && i > 0 && strings.Contains(strings.Join(lines[maxInt(0, i-3):i], " "), "fallback") {
+					start = i + 1
+				}
+				if start >= 0 && end < 0 && strings.Contains(l, "offset += batchSize") {
+					end = i + 1
+				}
+			}
+			if start > 0 && end > start {
+				for _, pl := range strings.Split(string(prof), "\n") {
+					if !strings.Contains(pl, "batch_verify.go:") {
+						continue
+					}
+					var sl, sc, el, ec, nst, cnt int
+					rest := pl[strings.Index(pl, "batch_verify.go:")+len("batch_verify.go:"):]
+					if _, err := fmt.Sscanf(rest, "%d.%d,%d.%d %d %d", &sl, &sc, &el, &ec, &nst, &cnt); err == nil {
+						if sl > start && el < end && cnt > 0 {
+							ok = true
+							detail = fmt.Sprintf("REPLAY-CONFIRMED: the per-signature fallback block of VerifyBatch (batch_verify.go:%d-%d) was executed %d time(s) for all-valid batches", sl, el, cnt)
+							break
+						}
+					}
+				}
+			}
+		}
+	}
+	desc := fmt.Sprintf("%s: %s (%s); %s", ob.Harness, ob.Msg, ob.Pos, detail)
+	return ok, desc, detail
+}
+
+func maxInt(a, b int) int {
+	if a > b {
+		return a
+	}
+	return b
+}
+
 func init() {
+	for _, p := range []string{"vh_C17_valid_batch"} {
+		customReplayers[p] = fallbackSweepReplayer
+	}
+	for _, p := range []string{"vh_C17_multiScalarmult", "vh_C17_bosCoster"} {
+		customReplayers[p] = msmSweepReplayer
+	}
 	for _, p := range []string{"vh_C11_", "vh_C12_", "vh_C13_X25519"} {
 		customReplayers[p] = x25519SweepReplayer
 	}
